@@ -146,7 +146,7 @@ def _decide_bool_fn(fn, ref, res, role_key):
 
 def ob_wig_keep(ctx, res):
     """C03-P1..3 + clip (R-BOUND): the three section-type arms of get_block_values"""
-    fn = ctx.ast.fn(RW, "get_block_values")
+    fn = ctx.ast.fn(RW, "get_block_values", inline=True, keep=("value_in_range",))
     qp = _query_params(ctx, fn)
     if qp is None:
         res.fail("wigKeep/sig", fn, "query range parameters not found")
